@@ -1,8 +1,352 @@
-//! C38: one mutator per implemented ledger rule (filled in below).
+//! C38: one mutator per implemented ledger rule.  Each takes an accepted case
+//! and returns a copy that violates (as far as possible only) that rule; TLC
+//! re-derives from the independent projection that the rule is indeed broken
+//! (Phase1!Breaks) and demands a rejection.
 use crate::case::Case;
-use crate::mutate::Mutant;
+use crate::cbor::Cb;
+use crate::mutate::{val_coin, val_set_asset, val_set_coin, Mutant};
+use pv_core::serde_json::Value;
 use pv_core::Rng;
 
-pub fn c38(_base: &Case, _rng: &mut Rng, _thorough: bool) -> Vec<Mutant> {
-    vec![]
+type Mutator = fn(&Case, &Value) -> Option<Case>;
+
+fn strs(v: &Value) -> Vec<String> {
+    v.as_array().map(|a| a.iter().filter_map(|x| x.as_str().map(|s| s.to_string())).collect()).unwrap_or_default()
 }
+
+fn ins_non_empty(c: &Case, _: &Value) -> Option<Case> {
+    let mut c = c.clone();
+    if c.is_byron() {
+        c.body_mut().items_mut()?.get_mut(0)?.items_mut()?.clear();
+    } else {
+        c.body_mut().get_mut(0)?.items_mut()?.clear();
+    }
+    c.resign();
+    Some(c)
+}
+fn remove_utxo(c: &Case, key: u64) -> Option<Case> {
+    let mut c = c.clone();
+    let u = c.utxo_index_of(key, 0)?;
+    c.utxo.remove(u);
+    Some(c)
+}
+fn ins_in_utxo(c: &Case, _: &Value) -> Option<Case> {
+    remove_utxo(c, 0)
+}
+fn coll_in_utxo(c: &Case, _: &Value) -> Option<Case> {
+    remove_utxo(c, 13)
+}
+fn ref_in_utxo(c: &Case, _: &Value) -> Option<Case> {
+    if !matches!(c.era.as_str(), "babbage" | "conway") {
+        return None;
+    }
+    if let Some(x) = remove_utxo(c, 18) {
+        return Some(x);
+    }
+    let mut c = c.clone();
+    c.body_mut().set(18, Cb::array(vec![Cb::array(vec![Cb::bytes(&[0xabu8; 32]), Cb::uint(0)])]));
+    c.resign();
+    Some(c)
+}
+fn validity_upper(c: &Case, _: &Value) -> Option<Case> {
+    if c.is_byron() {
+        return None;
+    }
+    let mut c = c.clone();
+    match c.body().get(3).and_then(|x| x.as_u64()) {
+        Some(ttl) => c.env.slot = ttl + 1,
+        None => {
+            let s = c.env.slot;
+            c.body_mut().set(3, Cb::uint(s - 1));
+            c.resign();
+        }
+    }
+    Some(c)
+}
+fn validity_lower(c: &Case, _: &Value) -> Option<Case> {
+    if !matches!(c.era.as_str(), "alonzo" | "babbage" | "conway") {
+        return None;
+    }
+    let mut c = c.clone();
+    let s = c.env.slot;
+    c.body_mut().set(8, Cb::uint(s + 1));
+    c.resign();
+    Some(c)
+}
+fn min_ada(c: &Case, _: &Value) -> Option<Case> {
+    let mut c = c.clone();
+    let n = c.n_outputs();
+    if n == 0 {
+        return None;
+    }
+    let coin = c.out_coin(0);
+    val_set_coin(c.out_value_mut(0)?, 0);
+    if n >= 2 {
+        let other = c.out_coin(1);
+        val_set_coin(c.out_value_mut(1)?, other.checked_add(coin)?);
+    } else if !c.is_byron() {
+        let f = c.fee();
+        c.set_fee(f.checked_add(coin)?);
+    }
+    c.resign();
+    Some(c)
+}
+fn value_size(c: &Case, _: &Value) -> Option<Case> {
+    if !matches!(c.era.as_str(), "alonzo" | "babbage" | "conway") {
+        return None;
+    }
+    let mut c = c.clone();
+    c.env.ov.max_value_size = Some(0);
+    Some(c)
+}
+fn out_network(c: &Case, _: &Value) -> Option<Case> {
+    if c.is_byron() {
+        return None;
+    }
+    let mut c = c.clone();
+    let a = c.out_addr_mut(0)?;
+    if let Cb::Bytes(b, _) = a {
+        if b.is_empty() || b[0] >> 4 > 7 {
+            return None;
+        }
+        b[0] ^= 1;
+    }
+    c.resign();
+    Some(c)
+}
+fn tx_network(c: &Case, _: &Value) -> Option<Case> {
+    if !matches!(c.era.as_str(), "alonzo" | "babbage" | "conway") {
+        return None;
+    }
+    let mut c = c.clone();
+    let other = 1 - (c.env.net as u64 & 1);
+    c.body_mut().set(15, Cb::uint(other));
+    c.resign();
+    Some(c)
+}
+fn plutus_wit(t: &Value) -> bool {
+    t["plutusWit"].as_bool().unwrap_or(false)
+}
+fn collateral_count_max(c: &Case, t: &Value) -> Option<Case> {
+    if !plutus_wit(t) || c.input_refs(13).is_empty() {
+        return None;
+    }
+    let mut c = c.clone();
+    c.env.ov.max_collateral_inputs = Some(0);
+    Some(c)
+}
+fn collateral_count_none(c: &Case, t: &Value) -> Option<Case> {
+    if !plutus_wit(t) {
+        return None;
+    }
+    let mut c = c.clone();
+    c.body_mut().get_mut(13)?.items_mut()?.clear();
+    c.resign();
+    Some(c)
+}
+fn collateral_kind(c: &Case, t: &Value) -> Option<Case> {
+    if !plutus_wit(t) {
+        return None;
+    }
+    let mut c = c.clone();
+    let u = c.utxo_index_of(13, 0)?;
+    if let Cb::Bytes(b, _) = c.utxo_addr_mut(u)? {
+        if b.len() < 29 {
+            return None;
+        }
+        b[0] = 0x70 | (b[0] & 0x0f);
+        b.truncate(29);
+    }
+    Some(c)
+}
+fn collateral_assets(c: &Case, t: &Value) -> Option<Case> {
+    if !plutus_wit(t) || c.body().get(16).is_some() {
+        return None;
+    }
+    let mut c = c.clone();
+    let u = c.utxo_index_of(13, 0)?;
+    val_set_asset(c.utxo_value_mut(u)?, &[0x77u8; 28], b"C", Cb::uint(5));
+    Some(c)
+}
+fn collateral_amount(c: &Case, t: &Value) -> Option<Case> {
+    if !plutus_wit(t) {
+        return None;
+    }
+    let mut c = c.clone();
+    for k in 0..c.input_refs(13).len() {
+        let u = c.utxo_index_of(13, k)?;
+        val_set_coin(c.utxo_value_mut(u)?, 1);
+    }
+    c.body_mut().remove(16);
+    c.body_mut().remove(17);
+    c.resign();
+    Some(c)
+}
+fn collateral_annotation(c: &Case, t: &Value) -> Option<Case> {
+    if !plutus_wit(t) || !matches!(c.era.as_str(), "babbage" | "conway") {
+        return None;
+    }
+    let mut c = c.clone();
+    let mut total: u64 = 0;
+    for k in 0..c.input_refs(13).len() {
+        let u = c.utxo_index_of(13, k)?;
+        total = total.checked_add(val_coin(c.utxo_value_mut(u)?))?;
+    }
+    if total == 0 {
+        return None;
+    }
+    let ret = match c.body().get(16) {
+        Some(o) => match o {
+            Cb::Map(..) => o.get(1).map(val_coin).unwrap_or(0),
+            _ => o.items().and_then(|i| i.get(1)).map(val_coin).unwrap_or(0),
+        },
+        None => 0,
+    };
+    c.body_mut().set(17, Cb::uint(total.checked_sub(ret)? + 1));
+    c.resign();
+    Some(c)
+}
+fn mint_policy(c: &Case, _: &Value) -> Option<Case> {
+    if !c.supports_mint() || c.n_outputs() == 0 {
+        return None;
+    }
+    let mut c = c.clone();
+    c.add_mint(&[0x99u8; 28], b"Q", 1);
+    val_set_asset(c.out_value_mut(0)?, &[0x99u8; 28], b"Q", Cb::uint(1));
+    c.resign();
+    Some(c)
+}
+fn script_witness(c: &Case, t: &Value) -> Option<Case> {
+    let need = strs(&t["needScripts"]);
+    let wit = strs(&t["witScripts"]);
+    let refs = strs(&t["refScripts"]);
+    if !need.iter().any(|s| wit.contains(s) && !refs.contains(s)) {
+        return None;
+    }
+    let mut c = c.clone();
+    for k in [1u64, 3, 6, 7] {
+        c.wits_mut().remove(k);
+    }
+    Some(c)
+}
+fn datum_witness(c: &Case, t: &Value) -> Option<Case> {
+    if !t["plutus"].as_bool().unwrap_or(false) || strs(&t["inDatumHashes"]).is_empty() {
+        return None;
+    }
+    let mut c = c.clone();
+    c.wits_mut().remove(4)?;
+    Some(c)
+}
+fn redeemer_coverage(c: &Case, t: &Value) -> Option<Case> {
+    if !t["plutus"].as_bool().unwrap_or(false) {
+        return None;
+    }
+    let mut c = c.clone();
+    let r = c.wits_mut().get_mut(5)?;
+    match r {
+        Cb::Map(es, _) => es.push((
+            Cb::array(vec![Cb::uint(0), Cb::uint(999)]),
+            Cb::array(vec![Cb::uint(0), Cb::array(vec![Cb::uint(0), Cb::uint(0)])]),
+        )),
+        _ => r.items_mut()?.push(Cb::array(vec![Cb::uint(0), Cb::uint(999), Cb::uint(0), Cb::array(vec![Cb::uint(0), Cb::uint(0)])])),
+    }
+    Some(c)
+}
+fn aux_hash(c: &Case, _: &Value) -> Option<Case> {
+    if c.is_byron() {
+        return None;
+    }
+    let mut c = c.clone();
+    match c.body_mut().get_mut(7) {
+        Some(Cb::Bytes(b, _)) if !b.is_empty() => {
+            let k = 5 % b.len();
+            b[k] ^= 0x10
+        }
+        _ => c.body_mut().set(7, Cb::bytes(&[0u8; 32])),
+    }
+    c.resign();
+    Some(c)
+}
+fn aux_removed(c: &Case, _: &Value) -> Option<Case> {
+    if c.is_byron() || c.body().get(7).is_none() {
+        return None;
+    }
+    let mut c = c.clone();
+    c.tx.items_mut()?[3] = Cb::null();
+    Some(c)
+}
+fn script_integrity(c: &Case, _: &Value) -> Option<Case> {
+    if c.is_byron() {
+        return None;
+    }
+    let mut c = c.clone();
+    match c.body_mut().get_mut(11) {
+        Some(Cb::Bytes(b, _)) if !b.is_empty() => b[0] ^= 0x01,
+        _ => return None,
+    }
+    c.resign();
+    Some(c)
+}
+fn language(c: &Case, t: &Value) -> Option<Case> {
+    if c.era != "conway" {
+        return None;
+    }
+    let l = t["langsUsed"].as_array()?.first()?.as_u64()?;
+    let mut c = c.clone();
+    c.env.ov.drop_cost_model = Some(l as u8);
+    Some(c)
+}
+
+const TABLE: &[(&str, &str, Mutator)] = &[
+    ("InsNonEmpty", "no-inputs", ins_non_empty),
+    ("InsInUtxo", "spent-output-missing", ins_in_utxo),
+    ("CollInUtxo", "collateral-output-missing", coll_in_utxo),
+    ("RefInUtxo", "reference-output-missing", ref_in_utxo),
+    ("ValidityUpper", "slot-after-ttl", validity_upper),
+    ("ValidityLower", "slot-before-start", validity_lower),
+    ("MinAda", "output-coin-0", min_ada),
+    ("ValueSize", "max-value-size-0", value_size),
+    ("OutNetwork", "output-address-other-network", out_network),
+    ("TxNetwork", "body-network-id-other", tx_network),
+    ("CollateralCount", "max-collateral-inputs-0", collateral_count_max),
+    ("CollateralCount", "no-collateral-inputs", collateral_count_none),
+    ("CollateralKind", "collateral-script-locked", collateral_kind),
+    ("CollateralAssets", "collateral-with-assets", collateral_assets),
+    ("CollateralAmount", "collateral-1-lovelace", collateral_amount),
+    ("CollateralAnnotation", "total-collateral+1", collateral_annotation),
+    ("MintPolicy", "mint-unknown-policy", mint_policy),
+    ("ScriptWitness", "scripts-removed", script_witness),
+    ("DatumWitness", "datums-removed", datum_witness),
+    ("RedeemerCoverage", "extra-redeemer", redeemer_coverage),
+    ("AuxHash", "aux-hash-changed", aux_hash),
+    ("AuxHash", "aux-data-removed", aux_removed),
+    ("ScriptIntegrity", "script-data-hash-changed", script_integrity),
+    ("Language", "cost-model-removed", language),
+];
+
+pub fn c38(base: &Case, rng: &mut Rng, thorough: bool) -> Vec<Mutant> {
+    let t = base.run().proj;
+    let mut out = vec![];
+    for (rule, class, f) in TABLE {
+        if let Some(c) = f(base, &t) {
+            out.push(Mutant { class: class.to_string(), rule: rule.to_string(), boundary: false, case: c });
+        }
+    }
+    // random pairs: the second mutator is applied on top of the first (the first rule is the labelled one)
+    let pairs = if thorough { 12 } else { 4 };
+    for _ in 0..pairs {
+        let (r1, c1, f1) = rng.pick(TABLE);
+        let (r2, c2, f2) = rng.pick(TABLE);
+        if r1 == r2 {
+            continue;
+        }
+        let Some(a) = f1(base, &t) else { continue };
+        // env-only mutators commute; tx mutators re-sign, so the order does not matter for the verdict
+        let Some(b) = f2(&a, &t) else { continue };
+        // a pair carries no rule label: one mutator may undo the other's fact, so TLC only demands a
+        // rejection when the projection shows some broken rule
+        out.push(Mutant { class: format!("{c1}+{c2}"), rule: String::new(), boundary: false, case: b });
+    }
+    out
+}
+
